@@ -294,3 +294,46 @@ func (e *affEnv) loopRange(idx ssa.Value) (lo, hi lin, enter []Edge, header *ssa
 	}
 	return
 }
+
+// loopRangeBy: like loopRange for a loop whose index advances by a
+// loop-varying step (the width of the rune just decoded): idx = phi(init, idx+step)
+// with exactly that step on every way round, guarded by idx < bound.
+func (e *affEnv) loopRangeBy(idx ssa.Value, step ssa.Value) (lo, hi lin, enter []Edge, header *ssa.BasicBlock, ok bool) {
+	p, isP := stripNum(stripConv(idx)).(*ssa.Phi)
+	if !isP || step == nil {
+		return
+	}
+	var init ssa.Value
+	nBack := 0
+	for _, ed := range p.Edges {
+		if _, isC := ed.(*ssa.Const); isC {
+			init = ed
+			continue
+		}
+		// every non-initial edge must be idx + step exactly (through intermediate phis)
+		for _, lf := range phiLeaves(ed) {
+			if lf.Val == ssa.Value(p) {
+				continue
+			}
+			d := e.Of(lf.Val).sub(e.Of(p)).sub(e.Of(step))
+			if !linIsZero(d) {
+				return
+			}
+			nBack++
+		}
+	}
+	if init == nil || nBack == 0 {
+		return
+	}
+	for _, ref := range *p.Referrers() {
+		cmp, isCmp := ref.(*ssa.BinOp)
+		if !isCmp || cmp.Op != token.LSS || cmp.X != ssa.Value(p) || cmp.Block() != p.Block() {
+			continue
+		}
+		t, _ := boolEdges(cmp)
+		if len(t) > 0 {
+			return e.Of(init), e.Of(cmp.Y), t, p.Block(), true
+		}
+	}
+	return
+}
